@@ -13,7 +13,13 @@ way Python offers to name an object of another module (WRAPPER_SPELLINGS: from-i
 attribute chains, module aliases, parent-package imports; typing, collections.abc, a re-exporting
 module three packages deep; plain, quoted and postponed annotations), and CPython itself
 (exec + typing.get_type_hints / get_origin / get_args) confirms which part of the signature each
-such item documents.
+such item documents.  35% of the texts are not parsed on a fresh Docstring object but assigned
+(``docstring.value = text``, what extensions do) to an object with a history: constructed with,
+or visited / loaded from a source carrying, another generated docstring of any style; .lines /
+.parsed / parse(...) / as_dict(full=True) / .source read in random combinations; .parser,
+.parser_options, .parent and the line numbers reassigned in random order; the sections obtained
+through parse(style, **options), parse() or the (so far unread) .parsed property and judged by
+the same oracle as for a fresh object.
 
 Oracle: an executable model of the documentation (``expect``) written independently of the
 parsers, compared field by field with the parsed sections (kinds, order, titles, names,
@@ -40,7 +46,9 @@ RULE = ("random section lists of 2..8 sections over the kinds each style support
         "titles, every documented identifier alias in 5 letter-cases, indentation unit 2, 3, 4 or 8, 1..2 blank lines between sections, "
         "body optionally indented as in source; parents (function / __init__ / class / module / property / none) generated with the "
         "structure, function parents spelling Iterator / Generator / tuple through 13 import forms x {plain, quoted, postponed} "
-        "(import paths of 1..3 dots) with the signature fallback confirmed by CPython's get_type_hints; all parser options drawn at random (2^8 Google, 2^3 Numpy, 2 Sphinx); 8% of the structures carry exactly one "
+        "(import paths of 1..3 dots) with the signature fallback confirmed by CPython's get_type_hints; 35% of the texts assigned to a "
+        "Docstring object with a random history (constructed / visited / loaded with another docstring, reads of lines / parsed / parse / "
+        "as_dict / source, reassigned parser, options, parent, line numbers, three ways to obtain the sections) instead of a fresh one; all parser options drawn at random (2^8 Google, 2^3 Numpy, 2 Sphinx); 8% of the structures carry exactly one "
         "documented-but-suspicious construct (type field after its param, '):' inside a description, untyped attribute after a "
         "typed one, documented Numpy alias, lone Numpy name) so that the listed findings stay observable. distinct = digest of (style, options, "
         "structure); non-trivial = >=3 sections and one item with a multi-paragraph description")
@@ -50,7 +58,9 @@ LEVEL_TEXT = ("Each generated structure is rendered in the well-formed syntax of
               "Google, modulo trailing newlines for Numpy, modulo whitespace runs for Sphinx), example blocks; plus a per-line "
               "unique-token conservation check over the JSONEncoder form of the result. Which part of the parent's return annotation "
               "an untyped Yields / Receives / Returns item documents is decided by CPython (the parent is executed and its "
-              "get_type_hints are taken apart with get_origin / get_args), independently of how the module imports the names.")
+              "get_type_hints are taken apart with get_origin / get_args), independently of how the module imports the names. "
+              "The verdict is the same whether the text was given to a new Docstring or assigned to one that was read, parsed, "
+              "visited or loaded before; Docstring.lines must equal str.split of the text the object holds.")
 LEVEL_NOTE = ("trusted: the three renderers and the model of docs/reference/docstrings.md in this file; corners the documentation "
               "leaves open are excluded (trailing newline of Numpy descriptions, leading newline of Google descriptions that start "
               "on a new line, Returns fallback from Generator annotations, annotations of properties); sampled, not exhaustive")
@@ -60,7 +70,10 @@ REQUIRED_COUNTERS = ["structures_parsed", "sections_compared", "items_compared",
                      "multi_paragraph_descriptions_compared", "titles_compared", "tokens_conserved", "example_blocks_compared",
                      "admonitions_compared", "order_checked_google", "order_checked_numpy", "sphinx_structures_compared",
                      "json_roundtrips", "returns_like_annotations_from_parent_compared", "annotations_through_wrapper_compared",
-                     "annotations_through_deep_import_path_wrapper_compared", "cpython_signature_parts_confirmed"]
+                     "annotations_through_deep_import_path_wrapper_compared", "cpython_signature_parts_confirmed",
+                     "reused_object_cases_judged", "reused_after_text_was_read_or_parsed", "reused_after_lines_read", "reused_after_parse",
+                     "reused_visited_or_loaded_object_cases", "reused_loaded_object_cases", "reused_with_parser_attributes_reassigned",
+                     "reused_with_parent_reassigned", "reused_judged_through_parsed_property", "lines_compared_with_value"]
 EXHAUSTIVE = {"quick": False, "thorough": False}
 ASSUMPTIONS = ["'well-formed' means the syntax shown in docs/reference/docstrings.md (plus the Sphinx field-list syntax the docs link to)",
                "types are drawn from a pool of expressions whose str() is canonical; descriptions avoid section syntax of their own"]
@@ -68,6 +81,7 @@ SHARD_TIMEOUT = {"quick": 900, "thorough": 7200}
 
 STRUCTURES = {"quick": 18000, "thorough": 100_000}    # per style
 NSHARDS = 15
+REUSE_SHARE = 0.35     # share of the structures whose text is assigned to a Docstring object with a history (see gen_history)
 STYLES = ("google", "numpy", "sphinx")
 
 GOOGLE_BOOLS = ["ignore_init_summary", "trim_doctest_flags", "returns_multiple_items", "returns_named_value",
@@ -1285,6 +1299,167 @@ def cpython_signature_parts(struct: dict) -> tuple[bool, str]:
     return True, ""
 
 
+# ------------------------------------------------------------------------------------------
+# histories on ONE Docstring object: the text under test is assigned to an object that already lived
+READ_OPS = ["lines", "lines", "parsed", "parse-old-style", "parse-case-style", "as-dict-full", "source"]
+
+
+def source_with_docstring(parent: dict, doc: str) -> str:
+    """The parent's source with ``doc`` written as the docstring of the documented object (a literal, so any text is safe)."""
+    src, path, lit = parent["source"], parent["path"], repr(doc)
+    if path == "":
+        return lit + "\n" + src
+    if path == "K":
+        head, body = src.split("class K:\n", 1)
+        return head + "class K:\n    " + lit + "\n" + body
+    pad = "    " if path == "func" else "        "
+    head, tail = src.rsplit(": ...\n", 1)
+    return head + ":\n" + pad + lit + "\n" + tail
+
+
+def gen_history(rng: random.Random, struct: dict) -> dict:
+    """What happened to the Docstring object before (and while) it received the case's text.
+
+    construct / visit / load it with ANOTHER generated docstring (any style), read .lines / .parsed / parse(...) / as_dict /
+    .source in any combination, then assign .value (optionally twice, with a read in between) and, in any order, .parser,
+    .parser_options, .parent, .lineno/.endlineno; finally obtain the sections through parse(style, **options), through
+    parse() with the attributes set, or through .parsed (only when nothing computed it before: it is documented as cached).
+    """
+    old = gen_struct(rng, rng.choice(STYLES))
+    old_text = RENDER[old["style"]](old)
+    parent = struct["parent"]
+    origin = "constructed" if parent["kind"] == "none" else rng.choice(["constructed"] * 5 + ["visited"] * 4 + ["loaded"])
+    reads = [rng.choice(READ_OPS) for _ in range(rng.choice([0, 1, 1, 2, 2, 3]))]
+    if origin == "constructed":
+        reads = [r for r in reads if r != "source"]
+    cached_parsed = any(r in ("parsed", "as-dict-full") for r in reads)
+    judge = rng.choice(["explicit", "explicit", "attributes"] + ([] if cached_parsed else ["parsed"]))
+    ctor_options = dict(old["options"]) if rng.random() < 0.5 else {}
+    h: dict = {"origin": origin, "old_style": old["style"], "old_text": old_text, "reads": reads, "judge": judge,
+               "ctor_parser": rng.choice([None, old["style"], struct["style"]]), "ctor_options": ctor_options,
+               "parser_as_enum": rng.random() < 0.5, "interim": rng.random() < 0.2, "mid_read": rng.random() < 0.3}
+    steps = ["value"]
+    if judge != "explicit" or rng.random() < 0.3:
+        steps.append("parser")
+    if judge != "explicit" or (not struct["options"] and ctor_options) or rng.random() < 0.3:
+        steps.append("parser_options")      # parse(style) without options falls back on the attribute: it must be the case's
+    if origin == "constructed":
+        h["ctor_parent"] = rng.choice(["case", "case", "none", "old"])
+        if h["ctor_parent"] == "old":
+            h["old_parent"] = {"source": old["parent"]["source"], "path": old["parent"]["path"]}
+        if h["ctor_parent"] != "case":
+            steps.append("parent")
+    else:
+        h["source"] = source_with_docstring(parent, old_text)
+    if rng.random() < 0.3:
+        steps.append("linenos")
+    rng.shuffle(steps)
+    h["steps"] = steps
+    return h
+
+
+class HarnessError(Exception):
+    pass
+
+
+def run_history(rec, struct: dict, text: str):  # noqa: ANN001, ANN201, C901, PLR0912, PLR0915
+    """Replay struct['history'] on one Docstring object; returns (docstring, sections)."""
+    import inspect
+
+    import griffe
+    from vf.core.util import load_files, visit_source
+
+    h = struct["history"]
+    style, options = struct["style"], struct["options"]
+    cleaned = inspect.cleandoc(text.rstrip())            # what the constructor does to a text; assignment stores it as is
+    old_clean = inspect.cleandoc(h["old_text"].rstrip())
+
+    def spelled(name: str | None):  # noqa: ANN202
+        return griffe.Parser(name) if (name and h["parser_as_enum"]) else name
+
+    if h["origin"] == "constructed":
+        case_parent = parent_object(struct)
+        if h["ctor_parent"] == "case":
+            first_parent = case_parent
+        elif h["ctor_parent"] == "old":
+            first_parent = parent_object({"parent": h["old_parent"]})
+        else:
+            first_parent = None
+        ds = griffe.Docstring(h["old_text"], lineno=1, endlineno=1 + h["old_text"].count("\n"), parent=first_parent,
+                              parser=spelled(h["ctor_parser"]), parser_options=dict(h["ctor_options"]))
+    else:
+        if h["origin"] == "visited":
+            mod = visit_source(h["source"], "vfc13", docstring_parser=spelled(h["ctor_parser"]), docstring_options=dict(h["ctor_options"]))
+        else:
+            mod, _loader = load_files({"vfc13.py": h["source"]}, "vfc13", docstring_parser=spelled(h["ctor_parser"]))
+        path = struct["parent"]["path"]
+        case_parent = mod[path] if path else mod
+        ds = case_parent.docstring
+        if ds is None or ds.value != old_clean or ds.parent is not case_parent:
+            raise HarnessError(f"the {h['origin']} object does not carry the docstring written in its source: {None if ds is None else ds.value[:80]!r}")
+    # the object lives: reads of the OLD text (their results are not this check's business; that they happened is)
+    for op in h["reads"]:
+        try:
+            if op == "lines":
+                if ds.lines != old_clean.split("\n"):
+                    raise HarnessError("lines of the old text differ from its value")  # noqa: TRY301
+            elif op == "parsed":
+                ds.parsed  # noqa: B018
+            elif op == "parse-old-style":
+                ds.parse(spelled(h["old_style"]))
+            elif op == "parse-case-style":
+                ds.parse(spelled(style), **options)
+            elif op == "as-dict-full":
+                ds.as_dict(full=True)
+            elif op == "source":
+                ds.source  # noqa: B018
+        except HarnessError:
+            raise
+        except Exception:  # noqa: BLE001
+            rec.count("history_reads_that_raised")      # totality on arbitrary text/style pairs is C12's property
+    for step in h["steps"]:
+        if step == "value":
+            if h["interim"]:
+                ds.value = "\n".join(reversed(old_clean.split("\n")))
+                ds.lines  # noqa: B018
+            ds.value = cleaned
+            if h["mid_read"]:
+                ds.lines  # noqa: B018
+        elif step == "parser":
+            ds.parser = spelled(style)
+        elif step == "parser_options":
+            ds.parser_options = dict(options)
+        elif step == "parent":
+            ds.parent = case_parent
+        elif step == "linenos":
+            ds.lineno, ds.endlineno = 1, 1 + text.count("\n")
+    if h["judge"] == "explicit":
+        sections = ds.parse(spelled(style), **options)
+    elif h["judge"] == "attributes":
+        sections = ds.parse()
+    else:
+        sections = ds.parsed
+    rec.count("reused_object_cases_judged")
+    if any(r != "source" for r in h["reads"]):
+        rec.count("reused_after_text_was_read_or_parsed")
+    if any(r == "lines" for r in h["reads"]):
+        rec.count("reused_after_lines_read")
+    if any(r.startswith("parse") or r in ("parsed", "as-dict-full") for r in h["reads"]):
+        rec.count("reused_after_parse")
+    if h["origin"] != "constructed":
+        rec.count("reused_visited_or_loaded_object_cases")
+    if h["origin"] == "loaded":
+        rec.count("reused_loaded_object_cases")
+    if "parser" in h["steps"] or "parser_options" in h["steps"]:
+        rec.count("reused_with_parser_attributes_reassigned")
+    if "parent" in h["steps"]:
+        rec.count("reused_with_parent_reassigned")
+    if h["judge"] == "parsed":
+        rec.count("reused_judged_through_parsed_property")
+    rec.add_to_set("history_shapes", f"{h['origin']}:{'+'.join(sorted(set(h['reads']))) or 'no-read'}:{h['judge']}")
+    return ds, sections
+
+
 _PARENTS: dict[str, object] = {}
 
 
@@ -1303,6 +1478,8 @@ def parent_object(struct: dict):  # noqa: ANN201
 
 
 def run_case(rec, struct: dict) -> None:  # noqa: ANN001, C901, PLR0912
+    import inspect
+
     import griffe
     from vf.child import CaseTimeout
 
@@ -1311,17 +1488,27 @@ def run_case(rec, struct: dict) -> None:  # noqa: ANN001, C901, PLR0912
     case = {"struct": struct, "text": text}
     nt = nontrivial(struct)
     tags = [style, "parent:" + struct["parent"]["kind"], "mode:" + struct["mode"]] + (["hostile:" + struct["hostile"]] if struct.get("hostile") else [])
+    if struct.get("history"):
+        tags.append("reused:" + struct["history"]["origin"])
     try:
         with case_watchdog(60):
-            parent = parent_object(struct)
-            ds = griffe.Docstring(text, lineno=1, endlineno=1 + text.count("\n"), parent=parent)
-            sections = ds.parse(style, **struct["options"])
+            if struct.get("history"):
+                ds, sections = run_history(rec, struct, text)
+            else:
+                parent = parent_object(struct)
+                ds = griffe.Docstring(text, lineno=1, endlineno=1 + text.count("\n"), parent=parent)
+                sections = ds.parse(style, **struct["options"])
             rec.count("structures_parsed")
+            lines_now, lines_want = ds.lines, inspect.cleandoc(text.rstrip()).split("\n")
             obs = observe(sections)
             tree = json.loads(json.dumps(sections, cls=griffe.JSONEncoder))
             rec.count("json_roundtrips")
     except CaseTimeout:
         rec.inconclusive(case, "per-case wall-clock watchdog fired")
+        return
+    except HarnessError as exc:
+        rec.fail(case, "harness: could not set up the object history", observed=str(exc), expected="the object carries the old docstring",
+                 nontrivial=nt, tags=tags)
         return
     except Exception as exc:  # noqa: BLE001
         rec.fail_exc(case, f"{style} parser raised on a well-formed docstring", exc, nontrivial=nt, tags=tags, tried=ALL_FINDINGS)
@@ -1341,6 +1528,10 @@ def run_case(rec, struct: dict) -> None:  # noqa: ANN001, C901, PLR0912
                        + ("+quoted" if struct["parent"]["spelling"]["quoted"] else "") + ("+future" if struct["parent"]["spelling"]["future"] else ""))
     exp = expect(struct)
     mism = compare(style, exp, obs, rec)
+    rec.count("lines_compared_with_value")
+    if lines_now != lines_want:         # CPython's str.split over the text the object holds
+        mism.append({"path": ["lines"], "what": "Docstring.lines is not the text the object holds, split at newlines",
+                     "observed": lines_now[:6], "expected": lines_want[:6]})
     if not mism:
         # conservation: every token sits exactly where it was written (also guards the comparison above against blind spots)
         want = token_paths(expected_token_tree(exp))
@@ -1379,7 +1570,10 @@ def run_shard(spec: dict, rec) -> None:  # noqa: ANN001
     style = spec["style"]
     for _ in range(spec["count"]):
         hostile = rng.choice(HOSTILE[style]) if rng.random() < 0.08 else None
-        run_case(rec, gen_struct(rng, style, hostile))
+        struct = gen_struct(rng, style, hostile)
+        if rng.random() < REUSE_SHARE:
+            struct["history"] = gen_history(rng, struct)
+        run_case(rec, struct)
 
 
 def run_replay(inp: dict, rec) -> None:  # noqa: ANN001
